@@ -23,6 +23,7 @@ import (
 	"runtime"
 	"strconv"
 	"strings"
+	"sync"
 	"syscall"
 	"testing"
 	"testing/synctest"
@@ -331,6 +332,24 @@ func (n *wnode) start(ns NodeSpec, info *runInfo) *daemon {
 			}
 			t.OnMessage = func(m ndp.Message) {
 				w.log.Add(verifsim.Event{K: "onmessage", Node: n.id, If: name, S: m.Type().String()})
+			}
+			if step := info.plan.Opt["monitor_clock_step"]; step > 0 {
+				// a clock that has moved on every time somebody looks at it (as
+				// real clocks do): reading k of this monitor says now + k*step
+				var reads int64
+				var mu sync.Mutex
+				clock := func() time.Time {
+					mu.Lock()
+					reads++
+					k := reads
+					mu.Unlock()
+					v := time.Now().Add(time.Duration(k * step))
+					w.log.Add(verifsim.Event{K: "mon.now", Node: n.id, If: name, V: v.UnixNano() - info.startUnixNs})
+					return v
+				}
+				if !setFieldOfType(t, clock) {
+					w.log.Add(verifsim.Event{K: "mon.now", Node: n.id, If: name, Err: "Monitor has no clock to replace"})
+				}
 			}
 		default:
 			switch {
